@@ -21,7 +21,7 @@ def main():
         assert rc == 0, out
         demo = os.path.join(src, "demo.py")
         # demos written against /tmp/wt/<prop>: run a copy with the path rewritten to the scratch worktree
-        d = open(demo).read().replace("/tmp/wt4/%s" % prop, wt).replace("/tmp/wt3/%s" % prop, wt).replace("/tmp/wt2/%s" % prop, wt).replace("/tmp/wt/%s" % prop, wt)
+        d = open(demo).read().replace("/tmp/wt5/%s" % prop, wt).replace("/tmp/wt4/%s" % prop, wt).replace("/tmp/wt3/%s" % prop, wt).replace("/tmp/wt2/%s" % prop, wt).replace("/tmp/wt/%s" % prop, wt)
         os.makedirs(os.path.join(wt, "mutants", k), exist_ok=True)
         dpath = os.path.join(wt, "mutants", k, "demo.py")
         open(dpath, "w").write(d)
